@@ -383,6 +383,8 @@ class Exec:
             return getattr(obj, attr)
         if isinstance(obj, _Builtin) and attr == "__name__":
             return obj.name
+        if isinstance(obj, PyRaise) and attr in ("message", "args"):  # a caught, modelled exception: its text is not interpreted
+            return obj.msg if isinstance(obj.msg, str) else Opaque("exception message")
         if isinstance(obj, (AList, ADict, ASet, OMap, UMap, list, dict, set, frozenset, tuple, str)) or (
             is_z3(obj) and z3.is_string(obj)
         ):
